@@ -20,29 +20,36 @@ stranger).  The old witness is kept as `former_takeover_witness_is_inert` (and f
 -/
 namespace Qx.C15
 
-/-- what "has no effect" means for one received datagram -/
+/-- what "has no effect" means for one received datagram: the connectivity view (pair states, nominated flags, remote candidates,
+selected pair, connected) AND the fallback pair used for sending before a pair is selected are unchanged, and nothing is
+answered, no check is sent, `connected()` is not signalled -/
 def NoEffect (s : St) (d : Datagram) : Prop :=
-  connView (react s d).1 = connView s ∧
+  connView (react s d).1 = connView s ∧ (react s d).1.fallback = s.fallback ∧
   ∀ o ∈ (react s d).2, isBindingResponse o = false ∧ isCheckSent o = false ∧ o ≠ Out.connectedSig
+
+/-- the datagram does not carry the transaction id of an outstanding STUN-server discovery request (always true when no STUN
+server is configured or discovery has finished: `stunTx = []`) -/
+def St.notServerTx (s : St) (d : Datagram) : Prop := ∀ m, d.kind = .stun m → s.stunTx.contains m.txid = false
 
 /-! ## Safety -/
 
 /-- **Unauthenticated traffic has no effect — for EVERY state and EVERY unauthenticated datagram** (no integrity attribute, one
-that sits behind a FINGERPRINT, wrong key, the session's other password, truncated attribute; any layout, class, method, source, user name, role attribute,
-USE-CANDIDATE, transaction id — guessed right or not): the component state is returned literally unchanged, hence the
-connectivity view is, and nothing is answered. -/
+that sits behind a FINGERPRINT, wrong key, the session's other or a superseded password, truncated attribute; any layout, class,
+method, source, user name, role attribute, USE-CANDIDATE, transaction id — guessed right or not; STUN servers configured or not;
+component closed or not): connectivity view and fallback pair unchanged, nothing answered.  Unless the datagram carries the id of
+an outstanding STUN-server transaction (see `stun_server_path_…` below for that case) the whole state is literally unchanged. -/
 theorem unauthenticated_traffic_no_effect (s : St) (d : Datagram) (hun : d.unauthenticated = true) :
-    NoEffect s d ∧ (react s d).1 = s := by
-  have h := react_unauthenticated s d hun
-  refine ⟨⟨by rw [h.1], ?_⟩, h.1⟩
+    NoEffect s d ∧ (s.notServerTx d → (react s d).1 = s) := by
+  have h := react_unauthenticated_view s d hun
+  refine ⟨⟨h.1, h.2.1, ?_⟩, fun hs => (react_unauthenticated s d hun hs).1⟩
   intro o ho
-  have h1 := h.2 o ho
-  cases o <;> simp_all [isIntegrityWarning, isBindingResponse, isCheckSent]
+  have h1 := h.2.2 o ho
+  cases o <;> simp_all [isHarmlessOut, isBindingResponse, isCheckSent]
 
 /-- the only thing the component may do with such a datagram is log a warning -/
-theorem unauthenticated_datagram_dropped (s : St) (d : Datagram) (h : d.unauthenticated = true) :
+theorem unauthenticated_datagram_dropped (s : St) (d : Datagram) (h : d.unauthenticated = true) (hs : s.notServerTx d) :
     (react s d).1 = s ∧ ∀ o ∈ (react s d).2, o = Out.warnBadMi ∨ o = Out.warnNoMi ∨ o = Out.warnBadFp ∨ o = Out.warnTruncAttr := by
-  have h1 := react_unauthenticated s d h
+  have h1 := react_unauthenticated s d h hs
   refine ⟨h1.1, ?_⟩
   intro o ho
   have h2 := h1.2 o ho
@@ -53,7 +60,8 @@ and whatever follows: the pre-scan stops at the FINGERPRINT, the message is drop
 warning and the state is unchanged.  (`decode` alone would stop successfully at that FINGERPRINT, see
 `decode_alone_never_looks_behind_fingerprint`.) -/
 theorem mi_after_fingerprint_counts_as_absent (s : St) (src : Nat) (m : Stun) (pre rest : List Attr) (good : Bool)
-    (hpre : ∀ a ∈ pre, a = Attr.other) (hm : m.attrs = pre ++ Attr.fingerprint good :: rest) :
+    (hpre : ∀ a ∈ pre, a = Attr.other) (hm : m.attrs = pre ++ Attr.fingerprint good :: rest)
+    (hs : s.stunTx.contains m.txid = false) :
     protectingMi m.attrs = none ∧ prescan m.attrs = false ∧
     ({ src := src, kind := .stun m } : Datagram).unauthenticated = true ∧
     (react s { src := src, kind := .stun m }).1 = s := by
@@ -72,7 +80,7 @@ theorem mi_after_fingerprint_counts_as_absent (s : St) (src : Nat) (m : Stun) (p
     | true => rw [prescan_iff_protected, h1] at hp; simp at hp
   have h3 : ({ src := src, kind := .stun m } : Datagram).unauthenticated = true := by
     simp [Datagram.unauthenticated, h1]
-  exact ⟨h1, h2, h3, (react_unauthenticated s _ h3).1⟩
+  exact ⟨h1, h2, h3, (react_unauthenticated s _ h3 (fun m' hm' => by cases hm'; exact hs)).1⟩
 
 /-- Why the pre-scan must stop at FINGERPRINT (documented so the two walks cannot drift apart silently): `decode` returns
 success at a good FINGERPRINT without having verified anything and never looks at what follows. -/
@@ -98,7 +106,7 @@ theorem accepted_means_verified (cls : Cls) (attrs : List Attr)
 anybody can append attributes there.  Whatever is appended — USE-CANDIDATE, PRIORITY, further MESSAGE-INTEGRITY attributes, unknown
 attributes, a good FINGERPRINT — the component reacts exactly as to the message that ends with the MESSAGE-INTEGRITY. -/
 theorem attributes_after_mi_ignored (s : St) (src : Nat) (m : Stun) (pre post : List Attr) (st : MiSt)
-    (h : ∀ a ∈ post, a.harmless = true) :
+    (h : ∀ a ∈ post, a.harmless = true) (hs : s.stunTx.contains m.txid = false) :
     react s { src := src, kind := .stun { m with attrs := pre ++ .mi st :: post } }
       = react s { src := src, kind := .stun { m with attrs := pre ++ [.mi st] } } := by
   have e1 : handleRequest s src ({ m with attrs := pre ++ .mi st :: post } : Stun).decoded
@@ -107,43 +115,43 @@ theorem attributes_after_mi_ignored (s : St) (src : Nat) (m : Stun) (pre post : 
       (by simp [Stun.decoded, parsedPrio_trailer pre post st])
   have e2 : handleResponse s src ({ m with attrs := pre ++ .mi st :: post } : Stun)
           = handleResponse s src ({ m with attrs := pre ++ [.mi st] } : Stun) := rfl
-  simp only [react, prescan_trailer pre post st, decodeWalk_trailer _ pre post st h, e1, e2]
+  simp only [react, reactPeer, hs, prescan_trailer pre post st, decodeWalk_trailer _ pre post st h, e1, e2]
 
 /-- … in particular the tampering that makes a controlled agent nominate: USE-CANDIDATE (or a PRIORITY) appended behind the valid
 MESSAGE-INTEGRITY of a genuine request changes nothing. -/
-theorem appended_use_candidate_ignored (s : St) (src : Nat) (m : Stun) (n : Nat) :
+theorem appended_use_candidate_ignored (s : St) (src : Nat) (m : Stun) (n : Nat) (hs : s.stunTx.contains m.txid = false) :
     react s { src := src, kind := .stun { m with attrs := [.mi .validLocal, .useCandidate, .priority n, .fingerprint true] } }
       = react s { src := src, kind := .stun { m with attrs := [.mi .validLocal] } } :=
   attributes_after_mi_ignored s src m [] [.useCandidate, .priority n, .fingerprint true] .validLocal
-    (by intro a ha; simp at ha; rcases ha with rfl | rfl | rfl <;> rfl)
+    (by intro a ha; simp at ha; rcases ha with rfl | rfl | rfl <;> rfl) hs
 
 /-- A response is never accepted while the remote password is unknown — whatever integrity attribute it carries (the component
 could not verify it): remote user set or not, checks running or not. -/
 theorem response_before_remote_password_dropped (s : St) (src : Nat) (m : Stun)
-    (hpw : s.remotePwSet = false) (hc : m.cls = .response ∨ m.cls = .error) :
+    (hpw : s.remotePwSet = false) (hc : m.cls = .response ∨ m.cls = .error) (hs : s.stunTx.contains m.txid = false) :
     react s { src := src, kind := .stun m } = (s, []) := by
-  rcases hc with hc | hc <;> simp [react, hc, hpw]
+  rcases hc with hc | hc <;> simp [react, reactPeer, hc, hpw, hs]
 
 /-- **Whole histories.**  A history that consists only of unauthenticated datagrams (any number, any mix) leaves every state
-`s` — in particular its connectivity view — exactly as it was. (Name kept from the time when this held only for datagrams that
+`s` without outstanding STUN-server transactions (none configured, or discovery finished) — in particular its connectivity view — exactly as it was. (Name kept from the time when this held only for datagrams that
 carried some integrity attribute; it now covers absent MESSAGE-INTEGRITY too.) -/
-theorem forged_history_no_effect (s : St) (ops : List Op) (h : ∀ op ∈ ops, op.unauthenticated = true) :
+theorem forged_history_no_effect (s : St) (hs : s.stunTx = []) (ops : List Op) (h : ∀ op ∈ ops, op.unauthenticated = true) :
     connView (run s ops).1 = connView s ∧ (run s ops).1 = s ∧ ∀ o ∈ (run s ops).2, isIntegrityWarning o = true := by
-  have h1 := run_all_unauthenticated ops s h
+  have h1 := run_all_unauthenticated ops s hs h
   exact ⟨by rw [h1.1], h1.1, h1.2⟩
 
 /-- **Interleaved at any point of any negotiation.**  Take any history at all (credentials, candidates, timer ticks,
-time-outs, honest and dishonest datagrams in any order) and erase ALL unauthenticated datagrams from it: the final state is the
+time-outs, honest and dishonest datagrams in any order) and erase ALL unauthenticated datagrams from it (no STUN-server transaction outstanding at the start): the final state is the
 same and so is everything the component emitted, except for the integrity warnings. -/
-theorem forged_traffic_erasable (s : St) (ops : List Op) :
+theorem forged_traffic_erasable (s : St) (hs : s.stunTx = []) (ops : List Op) :
     (run s ops).1 = (run s (ops.filter fun o => !o.unauthenticated)).1 ∧
     (run s ops).2.filter (fun o => !isIntegrityWarning o)
       = (run s (ops.filter fun o => !o.unauthenticated)).2.filter (fun o => !isIntegrityWarning o) :=
-  run_erase_unauthenticated ops s
+  run_erase_unauthenticated ops s hs
 
 /-- **Only authenticated messages can matter:** if a STUN datagram changes the state or makes the component emit anything but
 an integrity warning, then its protecting MESSAGE-INTEGRITY exists and is the valid one for its class. -/
-theorem reaction_only_to_valid_mi (s : St) (src : Nat) (m : Stun)
+theorem reaction_only_to_valid_mi (s : St) (src : Nat) (m : Stun) (hs : s.stunTx.contains m.txid = false)
     (h : (react s { src := src, kind := .stun m }).1 ≠ s ∨
          ∃ o ∈ (react s { src := src, kind := .stun m }).2, isIntegrityWarning o = false) :
     protectingMi m.attrs = some (validFor m.cls) := by
@@ -151,7 +159,7 @@ theorem reaction_only_to_valid_mi (s : St) (src : Nat) (m : Stun)
   · exact h1
   exfalso
   have hf : ({ src := src, kind := .stun m } : Datagram).unauthenticated = true := by simp [Datagram.unauthenticated, h1]
-  have h3 := react_unauthenticated s _ hf
+  have h3 := react_unauthenticated s _ hf (fun m' hm' => by cases hm'; exact hs)
   rcases h with h | ⟨o, ho, hne⟩
   · exact h h3.1
   · rw [h3.2 o ho] at hne; exact absurd hne (by decide)
@@ -169,12 +177,106 @@ theorem former_takeover_witness_is_inert :
     (run (init false) ops).1.remoteCands = [] ∧ (run (init false) ops).2 = [.warnNoMi, .warnNoMi, .appNoRoute] := by
   decide
 
-/-- Application (non-STUN) datagrams never touch the connectivity view and are handed up byte for byte. -/
+/-- Application (non-STUN) datagrams never touch the connectivity view and are handed up byte for byte — FROM ANY SOURCE ADDRESS,
+before and after a pair is selected: `handleDatagram` does not compare the sender of application data with the selected pair or
+with any candidate (RFC 5245 does not ask for it; data authentication is left to the layer above, e.g. SRTP).  The only state
+they can change is the fallback pair, see the next theorem. -/
 theorem non_stun_no_effect (s : St) (src : Nat) (p : List UInt8) :
     connView (react s { src := src, kind := .nonStun p }).1 = connView s ∧
-    (react s { src := src, kind := .nonStun p }).2 = [.appData p] := by
+    (s.closed = false → (react s { src := src, kind := .nonStun p }).2 = [.appData p]) := by
   simp only [react]
-  split <;> simp [connView, St.connected]
+  split
+  · rename_i hc; simp [hc]
+  · split <;> simp [connView, St.connected]
+
+/-- **Where application data goes before a pair is selected.**  `sendDatagram` writes to the selected pair, else to the fallback
+pair, else fails.  The fallback pair changes in exactly two ways: `addRemoteCandidate` (signalling) makes the first candidate the
+fallback, and a non-STUN datagram makes its sender the fallback PROVIDED a pair for that address already exists — so a party
+without credentials can at most (by spoofing the address of a candidate) switch the fallback among existing pairs; it cannot
+make the component send to a new address (pairs only arise from signalling or authenticated requests, which is the main
+theorem).  Every other operation, in particular every STUN datagram, leaves the fallback alone. -/
+theorem fallback_changes_only_by_signalling_or_known_sender (s : St) (op : Op) :
+    (step s op).1.fallback = s.fallback ∨
+    (∃ a pr, op = .addRemote a pr ∧ (step s op).1.fallback = some a) ∨
+    (∃ a p, op = .dgram { src := a, kind := .nonStun p } ∧ (findPair s.pairs a).isSome = true ∧ (step s op).1.fallback = some a) :=
+  step_fallback s op
+
+theorem send_goes_to_selected_else_fallback (s : St) (p : List UInt8) (hc : s.closed = false) :
+    (sendApp s p).2 = [match s.active, s.fallback with
+      | some a, _ => .appSent a p
+      | none, some f => .appSent f p
+      | none, none => .appNoRoute] := by
+  simp only [sendApp, hc]
+  cases s.active <;> cases s.fallback <;> simp
+
+/-! ## STUN-server discovery, close(), changed credentials -/
+
+/-- **STUN-server path never touches connectivity.**  A STUN message carrying the id of an outstanding discovery transaction is
+processed without any authentication (that is how classic STUN works) — but all it can change is the discovery bookkeeping and the
+list of LOCAL server-reflexive candidates: connectivity view, selected pair and fallback pair are unchanged, nothing is sent. -/
+theorem stun_server_path_never_touches_connectivity (s : St) (src : Nat) (m : Stun) (h : s.stunTx.contains m.txid = true) :
+    connView (react s { src := src, kind := .stun m }).1 = connView s ∧
+    (react s { src := src, kind := .stun m }).1.fallback = s.fallback ∧
+    ∀ o ∈ (react s { src := src, kind := .stun m }).2, isHarmlessOut o = true := by
+  simp only [react]
+  split
+  · simp
+  · simp only [h, if_true]
+    have h1 := reactServer_view s m
+    exact ⟨h1.1, h1.2.1, h1.2.2.2⟩
+
+/-- **Acceptance rule for server answers:** a local server-reflexive candidate is added only by a Binding success response that
+carries the id of an outstanding discovery transaction, and that transaction is used up by it. -/
+theorem server_reflexive_only_for_outstanding_transaction (s : St) (d : Datagram)
+    (h : (react s d).1.localSrflx ≠ s.localSrflx) :
+    ∃ m, d.kind = .stun m ∧ s.stunTx.contains m.txid = true ∧ m.cls = .response ∧ m.method = .binding ∧
+      (react s d).1.stunTx.contains m.txid = false :=
+  react_localSrflx s d h
+
+/-- Documented (not a violation of C15, whose attacker cannot see transaction ids): the SOURCE ADDRESS of a server answer is not
+compared with the server's address — the 96-bit transaction id is the only protection of the discovery exchange. -/
+theorem server_answer_source_not_checked (s : St) (a b : Nat) (m : Stun) (h : s.stunTx.contains m.txid = true) :
+    react s { src := a, kind := .stun m } = react s { src := b, kind := .stun m } := by
+  simp [react, h]
+
+/-- **close():** afterwards nothing that arrives has any effect and nothing is routed; the component is no longer connected. -/
+theorem closed_component_is_inert (s : St) (d : Datagram) (p : List UInt8) :
+    (step s .close).1.connected = false ∧
+    react (step s .close).1 d = ((step s .close).1, []) ∧
+    (sendApp (step s .close).1 p).2 = [.appNoRoute] := by
+  simp [step, close, St.connected, react, sendApp]
+
+/-- **Changed remote credentials:** once `setRemotePassword` has replaced the remote password, a response protected with the
+superseded one (e.g. the answer to a check sent before the change) is unauthenticated for every class, hence has no effect. -/
+theorem superseded_password_no_effect (s : St) (src : Nat) (m : Stun) (pre post : List Attr)
+    (hpre : ∀ a ∈ pre, protectingMi [a] = none ∧ a ≠ .fingerprint true ∧ a ≠ .fingerprint false ∧ a ≠ .overrun)
+    (hm : m.attrs = pre ++ .mi .validOldRemote :: post) :
+    NoEffect s { src := src, kind := .stun m } := by
+  have hp : protectingMi m.attrs = some .validOldRemote := by
+    rw [hm]; clear hm
+    induction pre with
+    | nil => rfl
+    | cons a r ih =>
+      have ha := hpre a (by simp)
+      have hr := ih (fun b hb => hpre b (by simp [hb]))
+      cases a <;> simp_all [protectingMi]
+  have hun : ({ src := src, kind := .stun m } : Datagram).unauthenticated = true := by
+    simp only [Datagram.unauthenticated, hp]
+    cases m.cls <;> decide
+  exact (unauthenticated_traffic_no_effect s _ hun).1
+
+/-- USE-CANDIDATE (or ICE-CONTROLLING) sent by the peer of a CONTROLLING component — i.e. by the controlled side — is a role
+conflict: dropped, nothing nominated. -/
+theorem use_candidate_from_controlled_side_rejected (s : St) (src : Nat) (m : Stun)
+    (hc : s.controlling = true) (hu : m.useCandidate = true) :
+    handleRequest s src m = (s, [.roleConflict]) :=
+  role_conflict_request_dropped s src m (Or.inl ⟨hc, Or.inr hu⟩)
+
+/-- Retransmissions stop: the seventh firing of the retransmission timer after 7 transmissions fails the pair instead of sending
+again, and a failed pair is not picked up by the check timer (only `waiting` pairs are). -/
+theorem retransmission_gives_up (s : St) (t : Nat) (p : Pair) (hp : s.pairs.find? (fun q => q.tx == some t) = some p)
+    (h7 : p.tries ≥ 7) : (retransmit s t).2 = [.pairState p.remote .failed] := by
+  simp [retransmit, txFinished, hp, h7]
 
 /-- Documented behaviour, stated so it cannot drift silently: an (even authenticated) Binding request that claims the role
 the component has itself is dropped without any answer — no 487 error, no tie-breaker comparison, no role switch
@@ -244,12 +346,12 @@ theorem honest_pair_connects_partial (aControlling : Bool) (component addrA addr
     let n := Net.deliver 2 (honestNet aControlling component addrA addrB)
     n.a.connected = true ∧ n.b.connected = true ∧ n.a.active = some addrB ∧ n.b.active = some addrA ∧
     (n.evA.filter (· == .connectedSig)).length = 1 ∧ (n.evB.filter (· == .connectedSig)).length = 1 ∧
-    n.toA = [] ∧ n.toB = [] := by
+    n.toA = [] ∧ n.toB = [] ∧ n.a.closed = false ∧ n.b.closed = false := by
   have h1 : (addrA == addrB) = false := by simp [hne]
   have h2 : (addrB == addrA) = false := by simp [Ne.symm hne]
   cases aControlling <;>
     simp [honestNet, Net.deliver, Net.deliverRound, Net.opA, Net.opB, Net.emitA, Net.emitB, route, wire, run, step, init, addRemote,
-      St.addPair, sortDesc, insertDesc, connect, checkCandidates, performCheck, updatePair, react, prescan, decodeWalk, miCheck, Stun.decoded, parsedUc, parsedPrio, handleRequest,
+      St.addPair, sortDesc, insertDesc, connect, checkCandidates, performCheck, updatePair, react, reactPeer, prescan, decodeWalk, miCheck, Stun.decoded, parsedUc, parsedPrio, handleRequest,
       handleResponse, completion, findPair, St.connected, h1, h2]
 
 set_option linter.unusedSimpArgs false in
@@ -264,13 +366,14 @@ theorem honest_pair_carries_datagrams (aControlling : Bool) (component addrA add
   have h2 : (addrB == addrA) = false := by simp [Ne.symm hne]
   cases aControlling <;>
     simp [honestNet, Net.deliver, Net.deliverRound, Net.opA, Net.opB, Net.emitA, Net.emitB, route, wire, run, step, init, addRemote,
-      St.addPair, sortDesc, insertDesc, connect, checkCandidates, performCheck, updatePair, react, prescan, decodeWalk, miCheck, Stun.decoded, parsedUc, parsedPrio, handleRequest,
+      St.addPair, sortDesc, insertDesc, connect, checkCandidates, performCheck, updatePair, react, reactPeer, prescan, decodeWalk, miCheck, Stun.decoded, parsedUc, parsedPrio, handleRequest,
       handleResponse, completion, findPair, St.connected, sendApp, h1, h2]
 
-/-- **Connected is stable:** no operation and no datagram whatsoever (authenticated or not) makes a connected component
-unconnected again. -/
-theorem connected_is_stable (s : St) (ops : List Op) (h : s.connected = true) : (run s ops).1.connected = true :=
-  run_active ops s h
+/-- **Connected is stable:** no operation and no datagram whatsoever (authenticated or not) other than the application's own
+`close()` makes a connected component unconnected again. -/
+theorem connected_is_stable (s : St) (ops : List Op) (hops : ∀ op ∈ ops, op ≠ .close) (h : s.connected = true) :
+    (run s ops).1.connected = true :=
+  run_active ops s hops h
 
 /-- **Partial: honest agents connect although first transmissions are lost.**  Two model agents (component 1, addresses 1 and 2)
 with exchanged credentials, for EVERY combination of
@@ -280,13 +383,14 @@ with exchanged credentials, for EVERY combination of
 * loss of the FIRST transmission of A's request, of B's request, of A's response, of B's response (any subset),
 the following schedule ends with both agents connected to each other: three periods, each = {everything in flight is passed on,
 both 500 ms check timers tick, the answers are passed on, all retransmission timers fire}; and whatever happens afterwards
-(`opsA`, `opsB`: any operations, any datagrams) both stay connected.
+(`opsA`, `opsB`: any operations except `close()`, any datagrams) both stay connected.
 Fairness hypothesis, explicit: only first transmissions are lost, every retransmission and every later datagram is delivered, in
 order per direction.  Missing relative to the property: arbitrary interleavings / reordering, repeated loss of the same message,
 several REACHABLE candidates per agent (one local transport is modelled), other components than 1 for this statement (the
 lossless statement above holds for every component) — explored by the harness with real timers. -/
 theorem honest_pair_connects_despite_loss_partial
-    (aControlling bFirst gap deadA deadB deadFirst lossReqA lossReqB lossRspA lossRspB : Bool) (opsA opsB : List Op) :
+    (aControlling bFirst gap deadA deadB deadFirst lossReqA lossReqB lossRspA lossRspB : Bool) (opsA opsB : List Op)
+    (hA : ∀ op ∈ opsA, op ≠ .close) (hB : ∀ op ∈ opsB, op ≠ .close) :
     let n := (Net.periods 3 (lossyStart aControlling bFirst gap deadA deadB deadFirst 1, ⟨lossReqA, lossReqB, lossRspA, lossRspB⟩)).1
     n.a.active = some 2 ∧ n.b.active = some 1 ∧
     (run n.a opsA).1.connected = true ∧ (run n.b opsB).1.connected = true := by
@@ -299,19 +403,20 @@ theorem honest_pair_connects_despite_loss_partial
     · exact lossy_tt _ _ _ _ _ _ _ _
   simp only [bothConnected, Bool.and_eq_true, beq_iff_eq] at h
   refine ⟨h.1, h.2, ?_, ?_⟩
-  · exact connected_is_stable _ opsA (by simp [St.connected, h.1])
-  · exact connected_is_stable _ opsB (by simp [St.connected, h.2])
+  · exact connected_is_stable _ opsA hA (by simp [St.connected, h.1])
+  · exact connected_is_stable _ opsB hB (by simp [St.connected, h.2])
 
 /-- **Application datagrams are carried unchanged, any number of them, in order** from a component whose selected pair points at
 `addrB` to the component living there: what B's application receives is exactly the list of payloads A's application sent,
 A's state and B's connectivity view are untouched. -/
-theorem application_datagrams_carried (a b : St) (addrA addrB : Nat) (h : a.active = some addrB) (ps : List (List UInt8)) :
+theorem application_datagrams_carried (a b : St) (addrA addrB : Nat) (h : a.active = some addrB)
+    (hca : a.closed = false) (hcb : b.closed = false) (ps : List (List UInt8)) :
     let sent := run a (ps.map .sendApp)
     let arriving := route sent.1 addrA addrB sent.2
     let recv := run b (arriving.map .dgram)
     recv.2 = ps.map Out.appData ∧ sent.1 = a ∧ connView recv.1 = connView b := by
-  simp only [run_sendApp a addrB h ps, route_appSent a addrA addrB ps, List.map_map]
-  have h2 := run_nonStun b addrA ps
+  simp only [run_sendApp a addrB hca h ps, route_appSent a addrA addrB ps, List.map_map]
+  have h2 := run_nonStun b hcb addrA ps
   exact ⟨h2.1, trivial, h2.2⟩
 
 /-- … applied to the two honest agents after their negotiation, in both directions at once: any list `ps` sent by A arrives at B
@@ -325,8 +430,9 @@ theorem honest_pair_carries_datagram_lists (aControlling : Bool) (component addr
     (run n.a ((route sb.1 addrB addrA sb.2).map .dgram)).2 = qs.map Out.appData := by
   have hc := honest_pair_connects_partial aControlling component addrA addrB hne
   simp only at hc
-  exact ⟨(application_datagrams_carried _ _ addrA addrB hc.2.2.1 ps).1,
-         (application_datagrams_carried _ _ addrB addrA hc.2.2.2.1 qs).1⟩
+  obtain ⟨_, _, hA, hB, _, _, _, _, hcA, hcB⟩ := hc
+  exact ⟨(application_datagrams_carried _ _ addrA addrB hA hcA hcB ps).1,
+         (application_datagrams_carried _ _ addrB addrA hB hcB hcA qs).1⟩
 
 /-! ## Non-vacuity: concrete, non-trivial instances of the hypotheses -/
 
